@@ -8,11 +8,10 @@
 (* design in which eigenvectors() returns that coefficient matrix (negative *)
 (* control).                                                                *)
 (***************************************************************************)
-EXTENDS Naturals, Integers, FiniteSets
+EXTENDS LOBPCGOps
 CONSTANTS NMax, MaxIt, V_ReturnIterate
 VARIABLES n, k, b, iter, X, coef, resid, info, pc
 vars == <<n, k, b, iter, X, coef, resid, info, pc>>
-Mul(A, B) == IF A[2] = B[1] THEN <<A[1], B[2]>> ELSE <<0, 0>>      \* <<0,0>> marks a non-conformable product
 
 Init ==
     /\ n \in 6 .. NMax /\ k \in 1 .. NMax /\ 5 * k < n
@@ -24,9 +23,9 @@ Iterate ==
     /\ \E nb \in 0 .. b :
           IF nb = 0
           THEN pc' = "done" /\ info' = "Success" /\ UNCHANGED <<b, iter, X, coef, resid>>
-          ELSE LET order == IF iter = 0 THEN k + nb ELSE k + 2 * nb IN
+          ELSE /\ L_BlockOK(b, nb)
                /\ b' = nb /\ iter' = iter + 1
-               /\ coef' = <<order, k>>
+               /\ coef' = L_Coef(k, iter, nb)
                /\ X' = Mul(<<n, k>>, <<k, k>>)                 \* X * eVecX (+ R eVecR + D eVecD, all n x k)
                /\ resid' = <<n, k>>
                /\ UNCHANGED <<info, pc>>
